@@ -2,48 +2,70 @@
 (***************************************************************************)
 (* Validates cursor-operation logs recorded from the real parser (hook H1  *)
 (* in src/iter.rs, H4 in the SIMD modules) against the contract of         *)
-(* Cursor.tla.  Every hook logs the operation, its argument and the cursor *)
-(* state at the time of the request; a trace is accepted iff every logged  *)
-(* state equals the state the contract computes and every operation's      *)
-(* precondition holds.  So an `advance` past `end`, a `peek_ahead(n)` with  *)
-(* n > remaining, a `slice_skip` larger than the committed distance or a   *)
-(* 16/32-byte load with fewer bytes remaining is rejected even in release  *)
-(* builds (where the crate's debug_assert!s are compiled out) and even     *)
-(* when the over-read would land in mapped memory.                         *)
+(* Cursor.tla.  Every hook logs the operation, its argument and the state  *)
+(* of the cursor VALUE it was called on.  A call may use several cursor    *)
+(* values (a sub-cursor, a scratch cursor for a look-ahead): the trace     *)
+(* specification keeps every cursor created during the call (`curs`), an   *)
+(* event belongs to a cursor whose state equals the logged one, and the    *)
+(* trace is accepted iff every event finds such a cursor and satisfies     *)
+(* the operation's precondition on it.  So an `advance` past `end`, a       *)
+(* `peek_ahead(n)` with n > remaining, a `slice_skip` larger than the       *)
+(* committed distance, a 16/32-byte load with fewer bytes remaining, or a  *)
+(* cursor whose fields changed behind the methods' back, is rejected even  *)
+(* in release builds (where the crate's debug_assert!s are compiled out)   *)
+(* and even when the over-read would land in mapped memory.                *)
 (***************************************************************************)
 EXTENDS Cursor, Sequences, TLC, Json, IOUtils
 
 Rec == ndJsonDeserialize(IOEnv.TRACE)
-VARIABLES l, live
-tvars == <<len, start, cursor, end, lastEnd, l, live>>
+VARIABLES l, curs
+tvars == <<len, start, cursor, end, lastEnd, l, curs>>
+\* (the variables of Cursor.tla other than `len` are not used here: the cursors live in `curs`)
+Idle == UNCHANGED <<start, cursor, end, lastEnd>>
 
-TInit == l = 1 /\ live = FALSE /\ len = 0 /\ start = 0 /\ cursor = 0 /\ end = 0 /\ lastEnd = 0
+TInit == l = 1 /\ curs = <<>> /\ len = 0 /\ start = 0 /\ cursor = 0 /\ end = 0 /\ lastEnd = 0
 IsEvent(e) == l <= Len(Rec) /\ Rec[l].ev = e /\ l' = l + 1
-Same == Rec[l].s = start /\ Rec[l].c = cursor /\ Rec[l].e = end
+Match(k) == Rec[l].s = k.start /\ Rec[l].c = k.cursor /\ Rec[l].e = k.end
+\* the event is an operation on SOME live cursor in the logged state, allowed by `ok`, with effect `do`
+On(ok(_), do(_)) == \E i \in 1..Len(curs) :
+                      /\ Match(curs[i]) /\ ok(curs[i])
+                      /\ curs' = [curs EXCEPT ![i] = do(curs[i])]
+Id(k) == k
+Yes(k) == TRUE
 
-TCall == /\ IsEvent("call") /\ len' = Rec[l].len /\ live' = FALSE
-         /\ start' = 0 /\ cursor' = 0 /\ end' = 0 /\ lastEnd' = 0
-TRet == IsEvent("ret") /\ ~Rec[l].panicked /\ live' = FALSE /\ UNCHANGED cvars
-IsOp(code) == IsEvent("op") /\ Rec[l].code = code
-TNew == IsOp(0) /\ New(Rec[l].s, Rec[l].e) /\ Rec[l].arg = Rec[l].e - Rec[l].s /\ live' = TRUE
-TPeek == IsOp(1) /\ live /\ Same /\ Peek /\ UNCHANGED live
-TPeekAhead == IsOp(2) /\ live /\ Same /\ PeekAhead(Rec[l].arg) /\ UNCHANGED live
-TPeekN == IsOp(3) /\ live /\ Same /\ PeekN(Rec[l].arg) /\ UNCHANGED live
-TAdvance == IsOp(4) /\ live /\ Same /\ Advance(Rec[l].arg) /\ UNCHANGED live
-TSlice == IsOp(5) /\ live /\ Same /\ HandOut(0) /\ UNCHANGED live
-TSliceSkip == IsOp(6) /\ live /\ Same /\ HandOut(Rec[l].arg) /\ UNCHANGED live
-TCommit == IsOp(7) /\ live /\ Same /\ Commit /\ UNCHANGED live
-TSetCursor == IsOp(8) /\ live /\ Same /\ SetCursor(Rec[l].arg) /\ Rec[l].arg >= cursor /\ UNCHANGED live
-TNextNone == IsOp(9) /\ live /\ Same /\ UNCHANGED cvars /\ UNCHANGED live
+TCall == IsEvent("call") /\ len' = Rec[l].len /\ curs' = <<>> /\ Idle
+TRet == IsEvent("ret") /\ ~Rec[l].panicked /\ curs' = <<>> /\ UNCHANGED len /\ Idle
+IsOp(code) == IsEvent("op") /\ Rec[l].code = code /\ UNCHANGED len /\ Idle
+TNew == /\ IsOp(0) /\ OkNew(len, Rec[l].s, Rec[l].e) /\ Rec[l].arg = Rec[l].e - Rec[l].s
+        /\ curs' = Append(curs, DoNew(Rec[l].s, Rec[l].e))
+TPeek == IsOp(1) /\ On(Yes, Id)
+TPeekAhead == IsOp(2) /\ LET ok(k) == OkPeekAhead(k, Rec[l].arg) IN On(ok, Id)
+TPeekN == IsOp(3) /\ LET ok(k) == OkPeekN(k, Rec[l].arg) IN On(ok, Id)
+TAdvance == IsOp(4) /\ LET ok(k) == OkAdvance(k, Rec[l].arg)
+                           do(k) == DoAdvance(k, Rec[l].arg) IN On(ok, do)
+TSlice == IsOp(5) /\ LET ok(k) == OkHandOut(k, 0)
+                         do(k) == DoHandOut(k, 0) IN On(ok, do)
+TSliceSkip == IsOp(6) /\ LET ok(k) == OkHandOut(k, Rec[l].arg)
+                             do(k) == DoHandOut(k, Rec[l].arg) IN On(ok, do)
+TCommit == IsOp(7) /\ On(Yes, DoCommit)
+TSetCursor == IsOp(8) /\ LET ok(k) == OkSetCursor(k, Rec[l].arg) /\ Rec[l].arg >= k.cursor
+                             do(k) == DoSetCursor(k, Rec[l].arg) IN On(ok, do)
+TNextNone == IsOp(9) /\ On(Yes, Id)
 \* k times next() with a byte available (each = the check `cursor < end` and advance(1))
-TNexts == IsEvent("nexts") /\ live /\ Same /\ Advance(Rec[l].n) /\ UNCHANGED live
-TLoad == IsOp(11) /\ live /\ Rec[l].c = cursor /\ Rec[l].e = end /\ Load(Rec[l].arg) /\ UNCHANGED live
+TNexts == /\ IsEvent("nexts") /\ UNCHANGED len /\ Idle
+          /\ LET ok(k) == OkAdvance(k, Rec[l].n)
+                 do(k) == DoAdvance(k, Rec[l].n) IN On(ok, do)
+\* block loads log the read position and the end only
+TLoad == /\ IsOp(11)
+         /\ \E i \in 1..Len(curs) : /\ Rec[l].c = curs[i].cursor /\ Rec[l].e = curs[i].end
+                                     /\ OkLoad(curs[i], Rec[l].arg)
+         /\ UNCHANGED curs
 
 TNext == TCall \/ TRet \/ TNew \/ TPeek \/ TPeekAhead \/ TPeekN \/ TAdvance \/ TSlice \/ TSliceSkip
          \/ TCommit \/ TSetCursor \/ TNextNone \/ TNexts \/ TLoad
 TSpec == TInit /\ [][TNext]_tvars
 
-TraceInv == live => Bounds /\ SliceBounds
+TraceInv == \A i \in 1..Len(curs) : KBounds(curs[i], len) /\ KSliceBounds(curs[i])
 Accepted ==
   IF TLCGet("stats").diameter - 1 = Len(Rec) THEN TRUE
   ELSE /\ PrintT(<<"REJECT", TLCGet("stats").diameter, Len(Rec)>>)
